@@ -5,6 +5,7 @@ import (
 	"fmt"
 	"io"
 	"net"
+	"sync"
 	"sync/atomic"
 	"time"
 
@@ -648,7 +649,7 @@ func (c *Client) Do(ctx context.Context, q Query) (err error) {
 				otelch.QueryID(q.QueryID),
 			),
 		)
-		m := new(queryMetrics)
+		m := &queryMetrics{mu: new(sync.Mutex)}
 		ctx = context.WithValue(newCtx, ctxQueryKey{}, m)
 		defer func() {
 			span.SetAttributes(
